@@ -76,6 +76,13 @@ CHECKS = {
         note="Kernel only: the whole-history statement (each call's full result equals the fresh-process result) is NOT decided. Outside the kernel and stated as assumptions: flex state (YY_START, buffer stack), bison's internal state, exceptions thrown from inside utap_parse, rootTransId/types (not re-initialised by the prologues; the grammar writes them before use), errno. utap_parse and lexer_flex are stubs.",
         technique="sliced real prologue functions executed on arbitrary global state (havocked history) in CBMC, assume/call/assert harnesses, 2-run equality for history independence; generated token/start-production tables; native replay with a seeded position counter",
     ),
+    "C02": dict(
+        category="proof",
+        text="Kernel of the statement. (i) The REAL ExpressionBuilder::ExpressionFragments and twenty REAL expression callbacks of ExpressionBuilder.cpp (expr_binary with isMITL/toMITLAtom, expr_assignment, expr_unary, expr_inline_if, expr_comma, expr_array, the four ++/--, expr_builtin_function1/2/3, expr_nary, expr_ternary, expr_nat/true/false/double/deadlock, make_constant) run over the REAL node factories of expression.cpp on a fragment stack of symbolic depth <= 6 with arbitrary operands: each pops exactly its operands, pushes one node of the prescribed kind whose children are the operands in source order, carries the builder's position, and leaves every fragment below untouched (frame); unary plus is the identity, unary minus becomes UNARY_MINUS, integer and floating literals are stored unchanged. (iii) Tables generated from parser.y on every run - the %left/%right declarations, the `Expression TOKEN Expression -> expr_binary(KIND)` productions, UnaryOp/AssignOp and the imply production - are decided against the UPPAAL operator table (contracts/C02/operator_table.json): relative precedence of every operator pair, associativity, node kind per token, aliases and/or/xor/not build the same kinds, assignments share the loosest right-associative level, inline-if sits between, imply is (not a) or b.",
+        design_ref="DESIGN.md section 4, C02",
+        note="Kernel only. NOT decided: that bison's LALR automaton realises the declared precedences (bison trusted; checked natively by the replay probe for all 23x23 operator pairs, which is a test, not a proof); the scanner's spelling->token map; literal conversion in lexer.l (atoi/snprintf/atof); identifier binding (C07); callbacks with type-dependent behaviour (expr_call_end, expr_dot, quantifiers). Stack depth <= 6, n-ary arity <= 6.",
+        technique="sliced real callbacks executed on a symbolic fragment stack in CBMC with stack-effect/frame contracts as assume/call/assert harnesses; finite table identities over tables generated from parser.y; native replay through parse_XTA",
+    ),
 }
 
 NOT_APPLICABLE = {
